@@ -527,9 +527,9 @@ PROPS = {
         "assumptions": ["join predicate symmetric (both shipped specs are)", "extensions reference only present k-mers"],
     },
     "C03": {
-        "lean_modules": ["Dbg.Props.C03"],
-        "theorems": ["Graph.C03_edges_complete", "Graph.C03_exts_resolve_from_reads", "Graph.C03_observed_adjacency_recorded", "Compress.ext_target_port", "Compress.findLink_complete", "Graph.C03_ginv_of_compress", "Graph.C03_edges_symmetric_from_reads", "Graph.C03_edges_symmetric", "Graph.C03_ginv_decidable", "Graph.C03_prune_exact", "Graph.C03_valid_exts_exact", "Graph.C03_edges_justified", "Graph.C03_walk_sequence", "Graph.C03_maxPath_walk", "Graph.C03_maxPath_sequence", "Graph.edge_overlap", "Graph.findLink_sound", "Graph.searchKmer_sound", "Graph.searchKmer_complete", "Graph.findLink_exts_irrelevant"],
-        "partial": ["adjacency = (K+1)-mers between retained k-mers is proved for the graph compress_kmers builds from reads (C03_edges_complete, C03_exts_resolve_from_reads, C03_observed_adjacency_recorded; palindromic terminal k-mers excluded in the converse); GInv and edge completeness are not yet proved for graphs after compress_graph / fix_exts with censoring (evaluated executably there); max_path_beam is not modelled"],
+        "lean_modules": ["Dbg.Props.C03", "Dbg.Props.C09c"],
+        "theorems": ["CompressGraph.C09_result_wellformed", "Graph.C03_edges_complete", "Graph.C03_exts_resolve_from_reads", "Graph.C03_observed_adjacency_recorded", "Compress.ext_target_port", "Compress.findLink_complete", "Graph.C03_ginv_of_compress", "Graph.C03_edges_symmetric_from_reads", "Graph.C03_edges_symmetric", "Graph.C03_ginv_decidable", "Graph.C03_prune_exact", "Graph.C03_valid_exts_exact", "Graph.C03_edges_justified", "Graph.C03_walk_sequence", "Graph.C03_maxPath_walk", "Graph.C03_maxPath_sequence", "Graph.edge_overlap", "Graph.findLink_sound", "Graph.searchKmer_sound", "Graph.searchKmer_complete", "Graph.findLink_exts_irrelevant"],
+        "partial": ["adjacency = (K+1)-mers between retained k-mers is proved for the graph compress_kmers builds from reads (C03_edges_complete, C03_exts_resolve_from_reads, C03_observed_adjacency_recorded; palindromic terminal k-mers excluded in the converse); GInv (hence edge symmetry) and completeness of find_link are also proved for the result of compress_graph without censoring (C09_result_wellformed) and for the sharded pipeline's final graph (C04_sharded_eq_direct); with censoring they are evaluated executably; max_path_beam is not modelled"],
         "n_quick": 3000, "n_thorough": 200000,
         "nontrivial": lambda toks, impl: impl != "panic" and (toks[1] != "graph" or toks[4].count(",") >= 1), "tags": _c03_tags,
         "rule": "requests: `graph K stranded nodes probes valid scores walk` on graphs produced by the real pipeline (filter -> prune -> compress -> "
@@ -542,9 +542,9 @@ PROPS = {
         "assumptions": ["pruning slices sorted by key (what filter_kmers + sort deliver)"],
     },
     "C09": {
-        "lean_modules": ["Dbg.Props.C09", "Dbg.Props.C09b"],
-        "theorems": ["CompressGraph.C09_recompress_eq_direct", "CompressGraph.C09_char", "CompressGraph.C09_char_of_built", "CompressGraph.rinv_fixExts", "CompressGraph.glinkV_sym", "CompressGraph.extendNode_refines", "CompressGraph.static_ok", "CompressGraph.palEnd_of_compress", "CompressGraph.C09_kmers_cover", "CompressGraph.C09_no_dangling", "CompressGraph.buildNode_kmers", "CompressGraph.buildNode_payload", "CompressGraph.fixExts_exact", "CompressGraph.extendNode_chain", "CompressGraph.C09_censored_excluded", "CompressGraph.extendNode_ok", "CompressGraph.buildNode_ok", "CompressGraph.compressLoop_ok"],
-        "partial": ["idempotence (re-compressing an already compressed graph changes nothing but order/orientation) needs the node-level invariant for the RESULT of compress_graph and is an executable predicate on the crate's result (components by label propagation against the k-mer table reconstructed from the surviving nodes); re-compression of graphs built with a finer join (one k-mer per node included) = direct compression is proved without censoring (C09_recompress_eq_direct), with censoring by execution"],
+        "lean_modules": ["Dbg.Props.C09", "Dbg.Props.C09b", "Dbg.Props.C09c"],
+        "theorems": ["CompressGraph.C09_idempotent", "CompressGraph.C09_result_wellformed", "Compress.pgraph_compressGraph", "Compress.pgraph_recompress_idem", "CompressGraph.C09_recompress_eq_direct", "CompressGraph.C09_char", "CompressGraph.C09_char_of_built", "CompressGraph.rinv_fixExts", "CompressGraph.glinkV_sym", "CompressGraph.extendNode_refines", "CompressGraph.static_ok", "CompressGraph.palEnd_of_compress", "CompressGraph.C09_kmers_cover", "CompressGraph.C09_no_dangling", "CompressGraph.buildNode_kmers", "CompressGraph.buildNode_payload", "CompressGraph.fixExts_exact", "CompressGraph.extendNode_chain", "CompressGraph.C09_censored_excluded", "CompressGraph.extendNode_ok", "CompressGraph.buildNode_ok", "CompressGraph.compressLoop_ok"],
+        "partial": ["without censoring everything is proved (result well-formed: C09_result_wellformed; idempotence: C09_idempotent; finer join then re-compression = direct compression: C09_recompress_eq_direct); with a non-empty censor set the characterisation C09_char is proved but the comparison of the censored result with the k-mer table (components by label propagation against the table reconstructed from the surviving nodes) is an executable predicate on the crate's result"],
         "n_quick": 2500, "n_thorough": 150000,
         "nontrivial": lambda toks, impl: impl not in ("panic", "-") and toks[8].count(",") >= 2, "tags": _c09_tags,
         "rule": "requests `recompress K gstranded stranded join reduce censor nodes` on graphs obtained from the real pipeline at three compression "
@@ -569,9 +569,9 @@ PROPS = {
         "assumptions": ["len() is observed on a fresh iterator only (the property asks for the count up front)"],
     },
     "C20": {
-        "lean_modules": ["Dbg.Props.C20"],
-        "theorems": ["Export.gfa_complete_of_compress", "Export.gfa_no_duplicate", "Export.gfa_links_complete_ginv", "Export.edges_ports_nodup", "Export.gfa_link_sound", "Export.gfa_links_complete", "Export.gfa_segment", "Export.mem_allLinks"],
-        "partial": ["JSON well-formedness (json_render) and serde round trips: decided by execution (JSON text compared verbatim with the model and parsed by serde_json; round trips compared). gfa_links_complete_ginv assumes the node-level invariant GInv, proved for the output of compress_kmers (gfa_complete_of_compress); for hand-built / re-compressed graphs it is a decidable hypothesis"],
+        "lean_modules": ["Dbg.Props.C20", "Dbg.Props.C09c"],
+        "theorems": ["CompressGraph.C20_gfa_complete_after_recompress", "Export.gfa_complete_of_compress", "Export.gfa_no_duplicate", "Export.gfa_links_complete_ginv", "Export.edges_ports_nodup", "Export.gfa_link_sound", "Export.gfa_links_complete", "Export.gfa_segment", "Export.mem_allLinks"],
+        "partial": ["JSON well-formedness (json_render) and serde round trips: decided by execution (JSON text compared verbatim with the model and parsed by serde_json; round trips compared). gfa_links_complete_ginv assumes the node-level invariant GInv, proved for the output of compress_kmers (gfa_complete_of_compress), of compress_graph without censoring (C20_gfa_complete_after_recompress) and of the sharded pipeline (C04_sharded_eq_direct); for hand-built graphs it is a decidable hypothesis"],
         "n_quick": 3000, "n_thorough": 200000,
         "nontrivial": lambda toks, impl: impl != "panic" and (toks[1] != "export" or toks[4].count(",") >= 1), "tags": _c20_tags,
         "shrink": _c20_shrink,
@@ -584,7 +584,7 @@ PROPS = {
     },
     "C04": {
         "lean_modules": ["Dbg.Props.C04"],
-        "theorems": ["Pipeline.C04_sharded_eq_direct", "Pipeline.sigmasOK_identity", "Compress.sharded_eq_direct_abstract", "Compress.pgraph_recompress", "Compress.shard_sandwich", "Compress.pgraph_flatten", "Compress.PGraph.ginv", "Pipeline.C04_shard_tables", "Pipeline.C04_shard_filter", "Pipeline.shardCfg_default", "Filter.read_observations", "Filter.table_restrict", "Pipeline.C04_link_pieces", "Pipeline.C04_link_shard", "Pipeline.C04_link_recompress"],
+        "theorems": ["Pipeline.C04_sharded_eq_direct", "Compress.sharded_result_ginv", "Pipeline.sigmasOK_identity", "Compress.sharded_eq_direct_abstract", "Compress.pgraph_recompress", "Compress.shard_sandwich", "Compress.pgraph_flatten", "Compress.PGraph.ginv", "Pipeline.C04_shard_tables", "Pipeline.C04_shard_filter", "Pipeline.shardCfg_default", "Filter.read_observations", "Filter.table_restrict", "Pipeline.C04_link_pieces", "Pipeline.C04_link_shard", "Pipeline.C04_link_recompress"],
         "partial": ["the PARTITION claim is proved end to end (C04_sharded_eq_direct: neither pipeline panics and every node of either graph has exactly the canonical k-mers of some node of the other, for every read set, K>=4, 1<=P<=K, default or injective permutation, stranded or not, every threshold, with or without sharded pruning, every hash order); equality of payload totals per node and of adjacencies is still decided by evaluating the executable predicate on the two real pipelines"],
         "n_quick": 1500, "n_thorough": 60000,
         "nontrivial": _c04_nontrivial, "tags": _c04_tags, "shrink": _reads_shrink(8),
